@@ -75,6 +75,8 @@ pub(crate) mod timing;
 pub(crate) mod validation;
 pub(crate) mod value_flags;
 pub(crate) mod verification;
+#[cfg(wild_verif)]
+pub(crate) mod verif;
 pub(crate) mod version_script;
 
 use crate::elf::Elf;
